@@ -2,7 +2,7 @@
 
 // C19 harness support, copied into every harnessed package (the package clause is rewritten by props/C19.py):
 // guarded calls (recover + per-call deadline), outcome canonicalisation, structure-aware JSON mutator, op/out files.
-package PKGNAME
+package client
 
 import (
 	"bufio"
